@@ -620,7 +620,7 @@ def translate_paths():
                atoms={own: "ownCircuit", f"payload.dest_address == {NULL_TXT}": "destIsNull",
                       "DataChecker.could_be_ipv8(payload.data)": "ipv8Payload", E2E: "e2eCircuit",
                       "self._prefix == payload.data[:22]": "ownPrefix", "self.get_prefix() == payload.data[:22]": "ownPrefix",
-                      "payload.data[22] == DataPayload.msg_id": "nestedData",
+                      "payload.data[22] in self.exit_msg_ids": "exitMessage",
                       "isinstance(self.endpoint, TunnelEndpoint)": "tunnelEndpoint"},
                acts={"self.exit_data(payload.circuit_id, sock_addr, payload.dest_address, payload.data)": "exitData",
                      "self.on_packet_from_circuit(payload.org_address, payload.data, payload.circuit_id)": "deliverOwn",
@@ -662,14 +662,46 @@ def translate_paths():
             raise TranslatorError(f"{COMM}:{opfc.lineno}: on_packet_from_circuit no longer dispatches by data[22] through decode_map_private")
     srcs_c.append(opfc)
     pay = ast.parse((REPO / "ipv8/messaging/anonymization/payload.py").read_text())
-    mid = None
+    msg_ids = {}
     for c in pay.body:
-        if isinstance(c, ast.ClassDef) and c.name == "DataPayload":
+        if isinstance(c, ast.ClassDef):
             for st in c.body:
-                if isinstance(st, ast.Assign) and ast.unparse(st.targets[0]) == "msg_id" and isinstance(st.value, ast.Constant):
-                    mid = st.value.value
+                if isinstance(st, ast.Assign) and ast.unparse(st.targets[0]) == "msg_id" and isinstance(st.value, ast.Constant) \
+                        and type(st.value.value) is int:
+                    msg_ids[c.name] = st.value.value
+    mid = msg_ids.get("DataPayload")
     if type(mid) is not int:
         raise TranslatorError("payload.py: DataPayload.msg_id not found")
+    # --- which message types may come back through an exit: add_cell_handler(<Payload>, <handler>, from_exit=True)
+    ach = _method(comm, "add_cell_handler", ["self", "payload_cls", "handler", "from_exit"], COMM)
+    atxt = ast.unparse(ach)
+    if "if from_exit:\n        self.exit_msg_ids.add(payload_cls.msg_id)" not in atxt or atxt.count("exit_msg_ids") != 1 \
+            or ast.unparse(ach.args.defaults[-1]) != "False":
+        raise TranslatorError(f"{COMM}:{ach.lineno}: add_cell_handler no longer fills exit_msg_ids exactly for from_exit=True (default False)")
+    writers = [ast.unparse(n) for fn in comm.body if isinstance(fn, ast.FunctionDef) and fn.name not in ("add_cell_handler",)
+               for n in ast.walk(fn) if isinstance(n, ast.Attribute) and n.attr == "exit_msg_ids"
+               and not isinstance(n.ctx, ast.Load)]
+    readers = [fn.name for fn in comm.body if isinstance(fn, ast.FunctionDef) for n in ast.walk(fn)
+               if isinstance(n, ast.Attribute) and n.attr == "exit_msg_ids"]
+    if sorted(readers) != ["__init__", "add_cell_handler", "on_data"] or writers != ["self.exit_msg_ids"]:
+        raise TranslatorError(f"{COMM}: exit_msg_ids is touched outside __init__/add_cell_handler/on_data ({readers}, {writers})")
+    declared = []
+    HS = "ipv8/messaging/anonymization/hidden_services.py"
+    for file, tree_ in ((COMM, ast.parse(cm_src)), (HS, ast.parse((REPO / HS).read_text()))):
+        for n in ast.walk(tree_):
+            if isinstance(n, ast.Call) and ast.unparse(n.func) == "self.add_cell_handler":
+                fe = [k for k in n.keywords if k.arg == "from_exit"] + ([n.args[2]] if len(n.args) > 2 else [])
+                if not fe:
+                    continue
+                v = fe[0].value if isinstance(fe[0], ast.keyword) else fe[0]
+                if not (isinstance(v, ast.Constant) and v.value in (True, False)):
+                    raise TranslatorError(f"{file}:{n.lineno}: from_exit is not a literal")
+                if v.value:
+                    cls = ast.unparse(n.args[0])
+                    if cls not in msg_ids:
+                        raise TranslatorError(f"{file}:{n.lineno}: message id of {cls} unknown")
+                    declared.append((cls, msg_ids[cls], file.rsplit("/", 1)[1]))
+    meta["exit_messages_declared"] = declared
     meta["data_msg_id"] = mid
 
     txt = "".join(ast.get_source_segment(es_src, f) or "" for f in srcs) + "".join(ast.get_source_segment(cm_src, f) or "" for f in srcs_c)
@@ -678,9 +710,13 @@ def translate_paths():
             "  Also checked structurally (TranslatorError otherwise): enable() flushes the queue through self.sendto; the resolution\n"
             "  callback re-enters self.sendto; tunnel_data = overlay.send_data(hop.address, circuit_id, (\"0.0.0.0\", 0), source, data);\n"
             "  self.exit_data is referenced from on_data only; on_data is registered once, as the cell handler of DataPayload;\n"
-            "  on_packet_from_circuit dispatches by data[22] through decode_map_private.\n-/\n"
+            "  on_packet_from_circuit dispatches by data[22] through decode_map_private; exit_msg_ids is filled only by\n"
+            "  add_cell_handler(..., from_exit=True) and read only by on_data.\n-/\n"
             "import Ipv8.C06.IR\n\nnamespace Ipv8.C06.Gen\nopen Ipv8.C06\n\n")
     body = f"/-- DataPayload.msg_id (payload.py) -/\ndef DATA_MSG_ID : Nat := {mid}\n\n"
+    body += ("/-- the message types registered with `add_cell_handler(..., from_exit=True)` in community.py / hidden_services.py: "
+             + ", ".join(f"{c} ({f})" for c, _, f in declared) + " -/\n"
+             f"def EXIT_MSG_IDS_DECLARED : List Nat := {[i for _, i, _ in declared]}\n\n")
     body += "\n".join(f"/-- {doc} -/\ndef {name} : Prog :=\n{lean_prog(tree)}\n" for name, doc, tree in progs)
     meta["programs"] = {name: tree for name, _, tree in progs}
     return head + body + "\nend Ipv8.C06.Gen\n", meta
